@@ -19,8 +19,8 @@ WIT = ["success_sent", "bound", "routed_with_true_from"]
 
 def run(tier):
     if tier == "thorough":
-        cfgs = [dict(name="immediate", config={"controlled": False}, depth=6, dev=3, deadline=1500),
-                dict(name="controlled", config={"controlled": True}, depth=7, dev=4, deadline=1800)]
+        cfgs = [dict(name="immediate", config={"controlled": False}, depth=7, dev=3, deadline=1500),
+                dict(name="controlled", config={"controlled": True}, depth=8, dev=4, deadline=1800)]
         return bfs_check(PROP, HARNESS, tier, cfgs, RULE, ASSUME, witness_required=WIT)
     cfgs = [dict(name="immediate", config={"controlled": False}, depth=4, dev=2, deadline=300),
             dict(name="controlled", config={"controlled": True}, depth=5, dev=3, deadline=300)]
